@@ -123,7 +123,7 @@ func main() {
 			if len(toks) == 0 {
 				continue
 			}
-			lines = append(lines, fmt.Sprintf("%s %s%s: %s", strings.TrimSuffix(last(strings.ReplaceAll(fn, "/", ".")), ""), recv, fd.Name.Name, strings.Join(toks, " ")))
+			lines = append(lines, fmt.Sprintf("%s%s: %s", recv, fd.Name.Name, strings.Join(toks, " ")))
 		}
 	}
 	sort.Strings(lines)
